@@ -32,7 +32,8 @@ def replay(out, pending):
 
 def run(out):
     maxops = 4 if out.tier == "quick" else 6
-    out.functions = ["Reader::{new,bump,reset_buff,is_eof,current_range,tail_range}", "LuaGreenNodeBuilder::{token,start_node,finish_node,is_trivia,is_trivia_whitespace}"]
+    out.functions = ["Reader::{new,bump,reset_buff,is_eof,current_range,tail_range}", "LuaGreenNodeBuilder::{token,start_node,finish_node,is_trivia,is_trivia_whitespace}",
+                     "LuaParser::{init,bump,skip_trivia,parse_trivia_tokens,parse_comments,peek_next_token,peek_nth_token,previous_token_range,current_token_range}"]
     out.bounds = {"reader": "texts of every byte-width shape of <= %d characters, <= k+1 symbolic operations; Kani's panic / overflow / bounds / unwinding checks" % (3 if out.tier == "quick" else 4),
                   "builder": "EVERY sequence (balanced or not) of <= %d builder operations inside the Chunk wrapper, all kinds symbolic: index / drain / insert in range, loops bounded" % maxops}
     out.outside = ["stack overflow from deeply nested input (recursive descent; no stack model)", "the linear-time clause", "the lexer and the grammar themselves",
@@ -44,6 +45,7 @@ def run(out):
     pending = []
     try:
         pending = pk.builder_obligations(out, mc, False, maxops)
+        pending += pk.parser_obligations(out, mc, False, 3 if out.tier == "quick" else 5)
     except (symex.Unsupported, RuntimeError, KeyError, ValueError, IndexError, AttributeError, TypeError) as e:
         import traceback
         out.fatal = "engine M could not encode the current source: %r\n%s" % (e, traceback.format_exc()[-1500:])
